@@ -10,12 +10,20 @@ that are about pyfatfs' own algorithms:
 * lookup: a directory scan returns exactly the entries that were written, in
   order, so lookup by long or short name sees every entry once;
 * a new short alias never equals an existing short name (no entry is shadowed).
-The reference-filesystem refinement of the primitives themselves is not a Lean
-theorem (no Lean model of the in-memory tree yet): `C01_refinement_statement`.
+* **refinement** (`Model.Fs`, the composition of the PyFatFS / FatIO primitives on
+  the in-memory tree + FAT, tied to the code by suite `fsmodel`): in every state
+  that satisfies the invariant — hence in every reachable state — each call
+  (create, create(wipe), makedir, remove, removedir, write at a position, truncate)
+  returns what the reference filesystem (a set of paths with kind and size)
+  returns, or stops with out-of-space and then leaves the tree as it was; after
+  any history the tree is the reference's (`c01_fs_step`, `c01_fs_history`).
+  Not in the model: file *contents* (C02), the compound helpers of fs.base
+  (makedirs, copy, move, removetree — compositions of these primitives), names.
 -/
 import PyFatModel.Proofs.Alloc
 import PyFatModel.Proofs.Dir
 import PyFatModel.Proofs.Names
+import PyFatModel.Proofs.FsRun
 
 open Model.Alloc
 
@@ -41,9 +49,41 @@ theorem c01_no_shadow (e : Model.Names.CharEnv) (name : List Nat) (existing : Li
     (h : Model.Names.makeAlias e name existing = some r) : r ∉ existing :=
   Proofs.Names.makeAlias_fresh e name existing r h
 
-/-- the full refinement statement is about the in-memory tree and the primitives of
-    `PyFatFS`; it is checked by differential execution against the reference filesystem. -/
-def C01_refinement_statement : Prop := True
+/-- one call in any state satisfying the invariant: same answer as the reference filesystem
+    unless out of space; the abstraction of the new state is the reference's new state
+    (unchanged when out of space) -/
+theorem c01_fs_step (v : Model.Fs.Vol) (count : Nat) (hv : Proofs.FsInv.VolOK v count) (s : Model.Fs.St)
+    (h : Proofs.FsInv.Inv v count s) (op : Model.Fs.Op) (hdom : Proofs.FsRefine.InDomain s op) :
+    Model.Fs.abs (Model.Fs.step v s op).1 = Proofs.FsRun.specFollow (Model.Fs.abs s) op (Model.Fs.step v s op).2 ∧
+      (¬ Proofs.FsRefine.Soft (Model.Fs.step v s op).2 →
+        (Model.Fs.step v s op).2 = (Model.Fs.specStep (Model.Fs.abs s) op).2) :=
+  Proofs.FsRun.step_sim hv h op hdom
+
+/-- all histories: the final tree is the reference filesystem's final tree -/
+theorem c01_fs_history (v : Model.Fs.Vol) (count : Nat) (hv : Proofs.FsInv.VolOK v count) (s : Model.Fs.St)
+    (h : Proofs.FsInv.Inv v count s) (ops : List Model.Fs.Op) (hdom : Proofs.FsRun.DomAll v s ops) :
+    Model.Fs.abs (Model.Fs.run v s ops) = Proofs.FsRun.specRun v s (Model.Fs.abs s) ops :=
+  Proofs.FsRun.run_sim hv ops s h hdom
+
+/-- path resolution through the directories (what `get_entry` does) is lookup by path -/
+theorem c01_fs_lookup (nodes : List Model.Fs.Node) (h : Proofs.FsTree.TreeInv nodes) (q : List Nat) (hq : q ≠ []) :
+    Model.Fs.resolve nodes q = (nodes.find? (fun n => n.path == q)).map Model.Fs.Loc.node :=
+  Proofs.FsTree.resolve_eq_find h q hq
+
+/-! non-vacuity: a concrete history on a small FAT12 volume (6 data clusters of 512 bytes, fixed root of 512 bytes) -/
+def demoVol : Model.Fs.Vol := ⟨params 12, 8, 512, true, 512, 1⟩
+def demoSt : Model.Fs.St := ⟨[4088, 4095, 0, 0, 0, 0, 0, 0], 0, [], [], [4088, 4095, 0, 0, 0, 0, 0, 0], []⟩
+def demoOps : List Model.Fs.Op :=
+  [.makedir [1] 2, .create [1, 2] 3 false, .fwrite [1, 2] 0 700, .create [3] 1 false, .removedir [1], .ftrunc [1, 2] 10, .remove [3]]
+
+example : Proofs.FsInv.VolOK demoVol 6 := ⟨Proofs.FatRep.params_ok 12, by decide, by decide⟩
+example : Proofs.FsInv.Inv demoVol 6 demoSt :=
+  Proofs.FsRun.inv_empty_fixed demoVol 6 _ 0 _ [] rfl (by decide)
+    (fun c h2 hc => by
+      have : c = 2 ∨ c = 3 ∨ c = 4 ∨ c = 5 ∨ c = 6 ∨ c = 7 := by omega
+      rcases this with rfl | rfl | rfl | rfl | rfl | rfl <;> decide) (by decide)
+example : (Model.Fs.run demoVol demoSt demoOps).fat = [4088, 4095, 4095, 4095, 0, 0, 0, 0] := by decide
+example : Model.Fs.abs (Model.Fs.run demoVol demoSt demoOps) = [⟨[1], true, 0⟩, ⟨[1, 2], false, 10⟩] := by decide
 
 example : Proofs.Alloc.avail (params 12) [4088, 4095, 0, 0, 3, 0] 4 2 = 3 := by decide
 
